@@ -478,7 +478,7 @@ def conf_str(conf):
     for m in conf.active_machines() if conf.started else []:
         parts.append('%s[%s]' % (m.name, ','.join(conf.m[m.name]['active'])))
     s = ' '.join(parts) if conf.started else 'not-started'
-    hm = {m.name: m.history != 'none' for m in conf.prog.machines}
+    hm = {m.name: (m.history != 'none' or conf.prog.full_key) for m in conf.prog.machines}
     hist = ['%s~(%s)' % (n, ','.join(v['hist'])) for n, v in sorted(conf.m.items()) if v['hist'] and hm[n]]
     if hist: s += ' hist:' + ' '.join(hist)
     if conf.queue: s += ' queue:%s' % (conf.queue,)
